@@ -30,8 +30,8 @@ func init() {
 		//      generate-signature request (clauses 1, 9, Q)
 		{Pkg: fw, Func: "(*GetMetadataResponse).HasCapability"},
 		{Pkg: fw, Type: "SignPlugin", Opaque: true},
-		{Pkg: fw, Func: "SignPlugin.DescribeKey", Oracle: true},
-		{Pkg: fw, Func: "SignPlugin.GenerateSignature", Oracle: true},
+		{Pkg: fw, Func: "SignPlugin.DescribeKey", Oracle: true, AnyReceiver: true},
+		{Pkg: fw, Func: "SignPlugin.GenerateSignature", Oracle: true, AnyReceiver: true},
 		{Pkg: fw, Func: "SignPlugin.GetMetadata", Oracle: true},
 		{Pkg: ".../signer", Func: "(*PluginSigner).describeKey"},
 		{Pkg: ".../signer", Func: "(*PluginSigner).getKeySpec"},
@@ -58,6 +58,22 @@ func init() {
 		{Pkg: "encoding/json", Func: "Unmarshal", Oracle: true, OutParams: []string{"v"}},
 		// `Annotations == nil` -> the empty map: nil and empty are one value here
 		{Pkg: "...", Func: "(*VerificationOutcome).UserMetadata", NilIsEmpty: true},
+		// ---- local signers: the request GenericSigner.Sign hands to notation-core-go (clauses 6, 7, 8, 10),
+		//      SignBlob's digest algorithm from the signer's own key spec (clause 9). What core and the
+		//      standard library do are oracles; json.Marshal is instantiated per argument type.
+		{Pkg: sig, Type: "Signer", Opaque: true},
+		{Pkg: "github.com/notaryproject/tspclient-go", Type: "Timestamper", Nilable: true}, // compared with nil (signer.go:119)
+		{Pkg: "github.com/notaryproject/notation-core-go/revocation", Type: "Validator", Nilable: true},
+		{Pkg: sig, Func: "Signer.KeySpec", Oracle: true, AnyReceiver: true},
+		{Pkg: sig, Type: "Envelope", Opaque: true},
+		{Pkg: sig, Func: "NewEnvelope", Oracle: true},
+		{Pkg: sig, Func: "Envelope.Sign", Oracle: true, AnyReceiver: true},
+		{Pkg: sig, Func: "Envelope.Verify", Oracle: true, AnyReceiver: true},
+		{Pkg: sig, Func: "(*SignRequest).WithContext", Oracle: true, FreshResults: true}, // returns a shallow copy
+		{Pkg: "encoding/json", Func: "Marshal", Oracle: true},
+		{Pkg: "time", Func: "Time.Add", Oracle: true},
+		{Pkg: ".../signer", Func: "(*GenericSigner).Sign"},
+		{Pkg: ".../signer", Func: "(*GenericSigner).SignBlob"},
 		// ---- refused on /repo a146158; kept because the reason documents what is outside the subset
 		//      (docs/audit/C07.md, section GoLite)
 		// desc is a by-value struct parameter whose Annotations map is the caller's unless
@@ -67,22 +83,6 @@ func init() {
 		{Pkg: "...", Func: "getDescriptorFunc"}, // the closure itself is fine; calls addUserMetadataToDescriptor
 		{Pkg: "...", Func: "SignBlob"},          // calls getDescriptorFunc
 		{Pkg: "...", Func: "VerifyBlob"},        // calls getDescriptorFunc
-		// GenericSigner.Sign: everything passes (oracles below) except json.Marshal(payload), an `any`
-		// parameter holding a struct (signer/signer.go:109) -> expiry = now + duration and the default
-		// signing agent stay tied to the code by the correspondence harness only
-		{Pkg: sig, Type: "Signer", Opaque: true},
-		{Pkg: "github.com/notaryproject/tspclient-go", Type: "Timestamper", Nilable: true},
-		{Pkg: "github.com/notaryproject/notation-core-go/revocation", Type: "Validator", Nilable: true},
-		{Pkg: sig, Func: "Signer.KeySpec", Oracle: true},
-		{Pkg: sig, Type: "Envelope", Opaque: true},
-		{Pkg: sig, Func: "NewEnvelope", Oracle: true},
-		{Pkg: sig, Func: "Envelope.Sign", Oracle: true},
-		{Pkg: sig, Func: "Envelope.Verify", Oracle: true},
-		{Pkg: sig, Func: "(*SignRequest).WithContext", Oracle: true, FreshResults: true}, // returns a shallow copy
-		{Pkg: "encoding/json", Func: "Marshal", Oracle: true},
-		{Pkg: "time", Func: "Time.Add", Oracle: true},
-		{Pkg: ".../signer", Func: "(*GenericSigner).Sign"},
-		{Pkg: ".../signer", Func: "(*GenericSigner).SignBlob"},
 		// verifier.Verify / VerifyBlob: `outcome` is handed to processSignature, which writes through it,
 		// and is assigned afterwards (verifier/verifier.go:296-298, :379-382); this is also where
 		// var verifier.algorithms is read (:307-316). notation.Verify: registry.Repository (4 methods)
